@@ -2,7 +2,8 @@
    parser over the PINNED table Spec.RefTable, independent of the parser's
    algorithm (no parent links, no walks).  Fragment: value tokens, prefix /
    suffix / binary operators (conditional and apply forms included), the comma
-   with both operands, the implicit space list, parentheses, whitespace.
+   with both operands, the implicit space list, round brackets and nested-expression
+   brackets `{ }` (properly matched), whitespace.
    A binary or suffix operator [d] is taken into the operand being built under a
    limit [q] iff  rank d < q, or rank d = q and d groups right-to-left.
    A prefix operator's operand is built under the prefix operator's own rank. *)
@@ -15,7 +16,7 @@ Inductive rtree : Type :=
 | RPre (d : definition) (tok : nat) (arg : rtree)
 | RSuf (d : definition) (tok : nat) (arg : rtree)
 | RBin (d : definition) (tok : option nat) (l r : rtree)   (* tok = None: implicit space list *)
-| RGroup (tok : nat) (inner : rtree).
+| RGroup (b : bkind) (tok : nat) (inner : rtree).    (* ( inner ) or { inner } *)
 
 Fixpoint rtree_eqb (a b : rtree) : bool :=
   match a, b with
@@ -24,7 +25,7 @@ Fixpoint rtree_eqb (a b : rtree) : bool :=
   | RSuf d1 t1 x, RSuf d2 t2 y => definition_eqb d1 d2 && Nat.eqb t1 t2 && rtree_eqb x y
   | RBin d1 t1 l1 r1, RBin d2 t2 l2 r2 =>
       definition_eqb d1 d2 && opt_nat_eqb t1 t2 && rtree_eqb l1 l2 && rtree_eqb r1 r2
-  | RGroup t1 x, RGroup t2 y => Nat.eqb t1 t2 && rtree_eqb x y
+  | RGroup b1 t1 x, RGroup b2 t2 y => bkind_eqb b1 b2 && Nat.eqb t1 t2 && rtree_eqb x y
   | _, _ => false
   end.
 
@@ -35,13 +36,13 @@ Inductive item : Type :=
 | IPrefix (d : definition) (i : nat)
 | ISuffix (d : definition) (i : nat)
 | IBinary (d : definition) (i : option nat)
-| IOpen (i : nat)
-| IClose (i : nat).
+| IOpen (b : bkind) (i : nat)
+| IClose (b : bkind) (i : nat).
 
 Definition ends_value_k (k : tok_kind) : bool :=
-  match k with KValue | KSuffix | KClose => true | _ => false end.
+  match k with KValue | KSuffix | KClose _ => true | _ => false end.
 Definition starts_value_k (k : tok_kind) : bool :=
-  match k with KValue | KPrefix | KOpen => true | _ => false end.
+  match k with KValue | KPrefix | KOpen _ => true | _ => false end.
 
 (* [prev]: kind of the last non-space token; [spaced]: whitespace seen since *)
 Fixpoint items_of (toks : list token_type) (i : nat) (prev : option tok_kind) (spaced : bool) : option (list item) :=
@@ -61,8 +62,9 @@ Fixpoint items_of (toks : list token_type) (i : nat) (prev : option tok_kind) (s
                 | KPrefix => IPrefix (ref_def t) i
                 | KSuffix => ISuffix (ref_def t) i
                 | KBinary => IBinary (ref_def t) (Some i)
-                | KOpen => IOpen i
-                | _ => IClose i
+                | KOpen b => IOpen b i
+                | KClose b => IClose b i
+                | _ => IClose BRound i     (* not reached: KSpace and KOther are handled above *)
                 end in
       match items_of r (S i) (Some k) false with
       | Some rest => Some (lead ++ it :: rest)
@@ -98,9 +100,10 @@ Fixpoint climb (fuel : nat) (q : N) (acc : option rtree) (its : list item) : opt
           end
         | None => None
         end
-      | IOpen i :: r =>
+      | IOpen b i :: r =>
         match climb f INF None r with
-        | Some (inner, IClose _ :: r') => climb f q (Some (RGroup i inner)) r'
+        | Some (inner, IClose b' _ :: r') =>
+          if bkind_eqb b b' then climb f q (Some (RGroup b i inner)) r' else None    (* `( }` is not an expression *)
         | _ => None
         end
       | _ => None
@@ -134,6 +137,12 @@ Definition pratt (toks : list token_type) : option rtree :=
     | _ => None
     end
   end.
+
+(* token lists without nested-expression brackets (for statements that are about round
+   brackets only) *)
+Definition curly_tok (t : token_type) : bool :=
+  match ref_kind t with KOpen BCurly | KClose BCurly => true | _ => false end.
+Definition round_only (toks : list token_type) : bool := forallb (fun t => negb (curly_tok t)) toks.
 
 (* the parser's node array as an rtree *)
 Definition norm_atom (d : definition) : definition :=
@@ -172,7 +181,12 @@ Fixpoint tree_of (fuel : nat) (ns : list pnode) (off : nat) (i : nat) : option r
           end
         else if definition_eqb (n_def n) D_Group then
           match n_left n, sub (n_right n) with
-          | None, Some a => Some (RGroup tok a)
+          | None, Some a => Some (RGroup BRound tok a)
+          | _, _ => None
+          end
+        else if definition_eqb (n_def n) D_NestedExpression then
+          match n_left n, sub (n_right n) with
+          | None, Some a => Some (RGroup BCurly tok a)
           | _, _ => None
           end
         else None
